@@ -39,7 +39,7 @@ func init() {
 			}}},
 		Quick:    200000,
 		Thorough: 3000000,
-		Require:  []string{"adv.handshake.stall", "blocked.when:local-close", "blocked.when:peer-fin", "blocked.when:peer-reset", "interrupted.whileBlocked:cancel", "close.whileReaderBlockedOnFullQueue", "socket.deadOnArrival", "onClose.registeredLate", "onClose.registeredAfterTheEnd", "handshake.entered"},
+		Require:  []string{"adv.handshake.stall", "blocked.when:local-close", "blocked.when:peer-fin", "blocked.when:peer-reset", "interrupted.whileBlocked:cancel", "close.whileReaderBlockedOnFullQueue", "socket.deadOnArrival", "onClose.registeredLate", "onClose.registeredAfterTheEnd", "handshake.entered", "discovery.mode.listenerClosedWhile"},
 		Assume: []string{
 			"bounded delay D = one tick interval (4 s) + 1 s of simulated time after the interrupting event (for a deadline: after the deadline), with one housekeeping tick in between and nothing further delivered",
 			"connections are built like Dial does (the library owns and closes the socket); Stop / Serve of the tcp and dtls servers are checked by hosting C10's server workloads (rule C09.R5: Serve returns after Stop, nothing stays blocked)",
